@@ -30,9 +30,9 @@ def capture(module, name):
     rec = {}
     orig = getattr(module, name)
 
-    def wrapper(func, x0, *a, **kw):
-        rec["func"], rec["args"], rec["x0"] = func, kw.get("args", a[0] if a else ()), x0
-        out = orig(func, x0, *a, **kw)
+    def wrapper(func, *a, **kw):
+        rec["func"], rec["args"], rec["x0"] = func, kw.get("args", a[1] if len(a) > 1 else ()), (a[0] if a else None)
+        out = orig(func, *a, **kw)
         rec["out"] = out
         return out
     setattr(module, name, wrapper)
@@ -80,6 +80,17 @@ def run(chk):
         U = " ".join(fbits(v) for v in x)
         lines.append("est.gumsm " + U); meta.append((info, "gumsm", list(gumbel.msm(x))))
         lines.append("est.gmmsm " + U); meta.append((info, "gmmsm", list(gumbelmin.msm(x))))
+    # Weibull msm: the shape comes from the root search (brentq, captured); location / scale / skewness from the model
+    for kind, x, info in samples:
+        rec, undo = capture(weibull, "brentq")
+        try:
+            a_, b_, c_ = weibull.msm(x)
+        except Exception:
+            undo()
+            continue
+        undo()
+        lines.append("est.wbmsm %s %s" % (fbits(c_), " ".join(fbits(v) for v in x)))
+        meta.append((info, "wbmsm", [a_, b_, c_, float(rec["args"][0]) if rec.get("args") else float("nan")]))
     with np.errstate(all="ignore"):
         outs = drv.run(lines)
     for (info, what, im), o in zip(meta, outs):
